@@ -1,6 +1,8 @@
 import SamVerif.Lemmas.EnumSpec
 import SamVerif.Lemmas.TailRec
 import SamVerif.Lemmas.CpeSem
+import SamVerif.Lemmas.TailStmt
+import SamVerif.Lemmas.CpeProg
 /-!
 # C01 — compiled code behaves as the source semantics prescribe: property theorems
 
@@ -18,6 +20,9 @@ type_permit_enum_boxed_optimization, EnumInit encoding, ConditionalDestructure t
   and `_partial` versions; the model now follows the fixed code (`enumsStarted`).
 
 K3 (tail recursion → loop, `mir_tail_recursion_rewrite.rs`; loop update `wasm_lowering.rs:437-441`):
+* `tailrec_stmt_equiv` (K3b, `Model/TailStmt.lean`): the rewrite over full MIR statement lists
+  (return collectors, final assignments, `Break` values, temporaries, non-tail self calls) preserves
+  the function's result for all arguments and fuel, under the front-end shape `good`;
 * `tailrec_equiv_seq` (full strength, the loop as the backends run it), `tailrec_equiv_par`,
   `seqAssign_eq_par_partial` / `_counterexample` (why the snapshot of fix c57720b is needed),
   `swap_regression`. History: before fix c57720b (finding C01-F2) `swap(1, 2, 1)` gave 22.
@@ -27,7 +32,10 @@ K4 (constant-parameter elimination decision, `mir_constant_param_elimination.rs`
   `mem_selfCallReads` (decision kernel);
 * `cpe_unused_preserves`, `cpe_const_preserves` (K4b, `Model/CpeSem.lean`): removing a parameter the
   kernel classifies `Unused` / `Int32Constant(n)` preserves printed lines and returned value of a
-  self-recursive function (self calls in any position), for all arguments and fuel.
+  self-recursive function (self calls in any position), for all arguments and fuel;
+* `cpe_prog_unused_preserves`, `cpe_prog_const_preserves` (K4c, `Model/CpeProg.lean`): the same over a
+  program of mutually calling functions — the parameter disappears from `g` and from every call of
+  `g` in every function, and every function of the program keeps its printed lines and result.
 -/
 namespace SamVerif.C01
 open SamVerif.EnumLayout
@@ -600,6 +608,119 @@ theorem cpe_const_preserves (ev : Op → Int → Int → Option Int) (prog : Lis
 
 end
 
+end SamVerif.C01
+
+namespace SamVerif.C01
+open SamVerif.TailStmt
+open SamVerif.TailRec (Name Expr Env upd bindParams seqAssign readsOther)
+open SamVerif.Opt (Op evalTarget)
+
+theorem runRec_lit (ev : Op → Int → Int → Option Int) (f : Fn) (m : Int) (hr : f.ret = .lit m) :
+    ∀ (fuel : Nat) (vals : List Int) (v : Int), runRec ev f fuel vals = some v → v = m := by
+  intro fuel vals v h
+  cases fuel with
+  | zero => simp [runRec] at h
+  | succ k =>
+    simp only [runRec] at h
+    split at h
+    · simp [hr, Expr.eval] at h; exact h.symm
+    · cases h
+
+/-- **tailrec_equiv over full statement lists.** For every operator semantics (in which `0 + 0`
+does not trap) and every function `f` of the MIR fragment (Binary, Cast, self calls anywhere,
+IfElse with final assignments) that the tail-recursion rewrite accepts: the rewritten `While` form
+— as the backends run it — returns exactly what the recursive function returns, for all arguments
+and all fuel. Hypotheses: distinct parameter names and the front-end shape `good` (final
+assignments have distinct names, tail calls are well-typed and their collector is not among their
+own arguments, a branch whose value is a literal does not end in a result-dropping self call). -/
+theorem tailrec_stmt_equiv (ev : Op → Int → Int → Option Int) (hadd : (ev .add 0 0).isSome = true)
+    (f : Fn) (lf : LoopFn) (h : rewriteFn f = some lf) (hp : plain f.body = true)
+    (hg : good f.params.length f.body (asVar f.ret) = true) (hnd : f.params.Nodup) :
+    ∀ (fuel : Nat) (vals : List Int), runRec ev f fuel vals = runLoop ev lf fuel vals := by
+  unfold rewriteFn at h
+  cases hrw : tryRw f.params.length f.body (asVar f.ret) 0 with
+  | none => simp [hrw] at h
+  | some res =>
+    obtain ⟨stmts, args, n⟩ := res
+    simp only [hrw, Option.some.injEq] at h
+    subst h
+    have hlen : args.length = f.params.length :=
+      tryRw_args_length f.params.length f.body (asVar f.ret) 0 (stmts, args, n) hrw hg
+    intro fuel
+    induction fuel with
+    | zero => intro vals; rfl
+    | succ k ih =>
+      intro vals
+      have hc : runLoop ev ⟨f.params, stmts, args, readsOther f.params args, n, asVar f.ret, f.ret⟩ k =
+          runRec ev f k := funext (fun v => (ih v).symm)
+      simp only [runRec, runLoop]
+      rw [hc]
+      have hcore := core ev (runRec ev f k) f.params.length (fun _ _ => trivial) hadd f.body
+        (asVar f.ret) 0 (stmts, args, n) hrw hp hg (bindParams f.params vals)
+      simp only at hcore
+      revert hcore
+      generalize execBlk ev (runRec ev f k) (bindParams f.params vals) f.body = r
+      generalize execBlk ev (runRec ev f k) (bindParams f.params vals) stmts = l
+      intro hcore
+      cases l with
+      | none =>
+        have : r = none := hcore
+        subst this; rfl
+      | some fl =>
+        cases fl with
+        | broke v =>
+          obtain ⟨env', rfl, hv⟩ : ∃ env', r = some (.next env') ∧ ∀ x, asVar f.ret = some x → env' x = v := hcore
+          cases hr : f.ret with
+          | lit m => simp [Expr.eval]
+          | var x => simp [Expr.eval, hv x (by simp [hr, asVar])]
+        | next e2 =>
+          -- the loop values, assigned sequentially or through the snapshot, are the argument values
+          have hnext : (if readsOther f.params args = true then
+                runRec ev f k (args.map (Expr.eval e2))
+              else runRec ev f k (f.params.map (seqAssign e2 (f.params.zip args)))) =
+              runRec ev f k (args.map (Expr.eval e2)) := by
+            split
+            · rfl
+            · rename_i hro
+              have hro' : readsOther f.params args = false := by simpa using hro
+              have hnb := TailRec.noBackwardRef_of_char f.params args
+                ((TailRec.readsOther_false_iff f.params args).mp hro')
+              rw [TailRec.seqAssign_eq_par f.params args e2 hnd hlen hnb]
+          simp only [hnext]
+          cases hcal : runRec ev f k (args.map (Expr.eval e2)) with
+          | none =>
+            have : r = none := by simpa [RelL, hcal] using hcore
+            subst this; rfl
+          | some rv =>
+            obtain ⟨env', rfl, hv⟩ : ∃ env', r = some (.next env') ∧ ∀ x, asVar f.ret = some x → env' x = rv := by
+              simpa [RelL, hcal] using hcore
+            cases hr : f.ret with
+            | lit m =>
+              have := runRec_lit ev f m hr k _ rv hcal
+              simp [Expr.eval, this]
+            | var x => simp [Expr.eval, hv x (by simp [hr, asVar])]
+
+
+/-- swap(a, b, n) with its full plumbing: `c = (n == 0); if c { t = a * 10; r1 = t + b } else { m = n - 1;
+r2 = swap(b, a, m) } finals res = r1 | r2; return res` -/
+def swapFn : TailStmt.Fn :=
+  { params := [0, 1, 2],
+    body := .bin 10 .eq (.var 2) (.lit 0)
+      (.ifElse (.var 10)
+        (.bin 11 .mul (.var 0) (.lit 10) (.bin 12 .add (.var 11) (.var 1) .done))
+        (.bin 13 .sub (.var 2) (.lit 1) (.call [.var 1, .var 0, .var 13] (some 14) .done))
+        [(15, .var 12, .var 14)] .done),
+    ret := .var 15 }
+example : (rewriteFn swapFn).isSome = true := by decide
+example : plain swapFn.body = true ∧ good 3 swapFn.body (asVar swapFn.ret) = true := by decide
+example : (rewriteFn swapFn).map (·.snapshot) = some true := by decide
+
+end SamVerif.C01
+
+namespace SamVerif.C01
+open SamVerif.TailRec
+open SamVerif.Opt (Op evalTarget)
+
 /-! ## Non-vacuity -/
 section
 open SamVerif.EnumLayout
@@ -654,5 +775,173 @@ end
 example : selfCallReads [0, 1, 2] [.var 9, .var 2, .var 1] = [9, 2, 1] := by decide
 example : selfCallReads [0, 1, 2] [.var 9, .var 1, .var 2] = [9] := by decide
 example : meet .referenced (.c32 5) = .c32 5 := by decide
+
+end SamVerif.C01
+
+namespace SamVerif.C01
+open SamVerif.TailRec SamVerif.CpeProg
+open SamVerif.Opt (Op)
+
+theorem lookup_of_mem (prog : Prog) (hu : (prog.map (·.name)).Nodup) (fn : PFn) (hm : fn ∈ prog) :
+    lookup prog fn.name = some fn := by
+  unfold lookup
+  induction prog with
+  | nil => cases hm
+  | cons f rest ih =>
+    simp only [List.map_cons, List.nodup_cons] at hu
+    simp only [List.find?_cons]
+    rcases List.mem_cons.mp hm with h | h
+    · subst h; simp
+    · have hne : f.name ≠ fn.name := fun hq => hu.1 (by rw [hq]; exact List.mem_map_of_mem h)
+      have : (f.name == fn.name) = false := by simpa using hne
+      simp only [this]
+      exact ih hu.2 h
+
+/-- Well-formedness of the program with respect to the eliminated parameter: function names are
+unique, the parameter is never assigned inside `g`, and every call of `g` anywhere passes one
+argument per parameter. -/
+structure ProgWf (prog : Prog) (g kg : Nat) (p : Name) : Prop where
+  unique : (prog.map (·.name)).Nodup
+  arity : ∀ fn ∈ prog, callsArityG g kg fn.body = true
+  noAssign : ∀ fn ∈ prog, fn.name = g → assignsP p fn.body = false
+
+/-- **Eliminating an `Unused` parameter from a program of mutually calling functions preserves the
+behaviour of every function.** If the decision kernel, run on the summary of the whole program,
+ends with `Unused` for parameter `i` of `g`, then after removing it from `g`'s signature and from
+every call of `g` in every function, each function of the program prints the same lines and
+returns the same value (a caller of `g` itself drops the argument), for all arguments and fuel. -/
+theorem cpe_prog_unused_preserves (ev : Op → Int → Int → Option Int) (prog : Prog) (g i : Nat)
+    (hg9 : g ≠ 999) (gfn : PFn) (p : Name)
+    (hg : lookup prog g = some gfn) (hp : gfn.params[i]? = some p) (hnd : gfn.params.Nodup)
+    (hdec : paramState (prog.map CpeProg.fnOf) (CpeProg.fnOf gfn) i p = .unused)
+    (hwf : ProgWf prog g gfn.params.length p) :
+    ∀ (h : Nat) (fuel : Nat) (vals : List Int),
+      run ev prog h fuel vals =
+        run ev (dropParam g i prog) h fuel (if h = g then vals.eraseIdx i else vals) := by
+  have hgm := lookup_mem hg
+  have hr : p ∉ readsOf gfn.name gfn.params gfn.body := by
+    have := paramState_unused_sound (prog.map CpeProg.fnOf) (CpeProg.fnOf gfn) i p hdec
+    simpa [localReads_fnOf] using this
+  have hsame : ∀ fn ∈ prog, fn.name = g → fn = gfn := by
+    intro fn hfn hn
+    have := lookup_of_mem prog hwf.unique fn hfn
+    rw [hn, hg] at this
+    exact (Option.some.inj this).symm
+  have hall : ∀ fn ∈ prog, okU g i gfn.params.length (hideOf g p fn) fn.body := by
+    intro fn hfn
+    by_cases hn : fn.name = g
+    · have := hsame fn hfn hn
+      subst this
+      simp only [hideOf, hn, if_true]
+      exact okU_of_reads g hg9 fn.params p i hp hnd fn.body (by simpa [hgm.2] using hr)
+        (hwf.noAssign fn hfn hn) (hwf.arity fn hfn)
+    · simp only [hideOf, hn, if_false]
+      exact okU_none g i gfn.params.length fn.body (hwf.arity fn hfn)
+  intro h fuel vals
+  unfold run
+  have hlk : lookup (dropParam g i prog) h = (lookup prog h).map (fun fn : PFn =>
+      ({ fn with params := if fn.name = g then fn.params.eraseIdx i else fn.params,
+                 body := dropArgs g i fn.body } : PFn)) :=
+    lookup_map prog (fun fn : PFn =>
+      ({ fn with params := if fn.name = g then fn.params.eraseIdx i else fn.params,
+                 body := dropArgs g i fn.body } : PFn)) (fun _ => rfl) h
+  rw [hlk]
+  cases hl : lookup prog h with
+  | none => rfl
+  | some fn =>
+    have hm := lookup_mem hl
+    simp only [Option.map_some]
+    by_cases hhg : h = g
+    · subst hhg
+      have hfn : fn = gfn := by rw [hl] at hg; exact Option.some.inj hg
+      subst hfn
+      simp only [hm.2, if_true]
+      exact exec_dropParam ev prog h i fn p hl hp hnd hall fuel fn.body (some p) _ _ []
+        (agreeH_of_agree (CpeSem.bindParams_erase p fn.params vals i hp hnd))
+        (by have := hall fn hm.1; simpa [hideOf, hm.2] using this)
+    · have hne : fn.name ≠ g := fun hq => hhg (hm.2.symm.trans hq)
+      simp only [hne, hhg, if_false]
+      exact exec_dropParam ev prog g i gfn p hg hp hnd hall fuel fn.body none _ _ []
+        (agreeH_refl _) (by have := hall fn hm.1; simpa [hideOf, hne] using this)
+
+/-- **Eliminating a parameter classified `Int32Constant(n)` from a program preserves the behaviour of
+every function**, provided `g` is entered from outside with `n` in that position (every call site
+inside the program passes the literal, by `paramState_c32_sound`). -/
+theorem cpe_prog_const_preserves (ev : Op → Int → Int → Option Int) (prog : Prog) (g i : Nat)
+    (hg9 : g ≠ 999) (gfn : PFn) (p : Name) (n : Int)
+    (hg : lookup prog g = some gfn) (hp : gfn.params[i]? = some p) (hnd : gfn.params.Nodup)
+    (hdec : paramState (prog.map CpeProg.fnOf) (CpeProg.fnOf gfn) i p = .c32 n)
+    (hwf : ProgWf prog g gfn.params.length p) :
+    ∀ (h : Nat) (fuel : Nat) (vals : List Int), (h = g → vals[i]? = some n) →
+      run ev prog h fuel vals =
+        run ev (substParam g i p n prog) h fuel (if h = g then vals.eraseIdx i else vals) := by
+  have hgm := lookup_mem hg
+  have hi : i < gfn.params.length := (List.getElem?_eq_some_iff.mp hp).1
+  have hsites := (paramState_c32_sound (prog.map CpeProg.fnOf) (CpeProg.fnOf gfn) i p n hdec).2
+  have hsame : ∀ fn ∈ prog, fn.name = g → fn = gfn := by
+    intro fn hfn hn
+    have := lookup_of_mem prog hwf.unique fn hfn
+    rw [hn, hg] at this
+    exact (Option.some.inj this).symm
+  have hall : ∀ fn ∈ prog, okC g i gfn.params.length n (hideOf g p fn) fn.body := by
+    intro fn hfn
+    apply okC_of_calls g i gfn.params.length n _ hi fn.body
+    · intro args hargs a ha
+      apply hsites (args.map CpeSem.exprArg) _ a ha
+      simp only [callSites, List.mem_flatMap, List.mem_filterMap, List.mem_map]
+      refine ⟨CpeProg.fnOf fn, ⟨fn, hfn, rfl⟩, .call g (args.map CpeSem.exprArg), ?_, by simp [CpeProg.fnOf, hgm.2]⟩
+      exact callsOf_atoms g hg9 fn.body args hargs
+    · intro q hq
+      by_cases hn : fn.name = g
+      · simp only [hideOf, hn, if_true, Option.some.injEq] at hq
+        subst hq
+        exact hwf.noAssign fn hfn hn
+      · simp [hideOf, hn] at hq
+    · exact hwf.arity fn hfn
+  intro h fuel vals hv
+  have hsim := exec_substParam ev prog g i gfn p n hg hp hnd hall fuel
+  unfold run
+  have hlk : lookup (substParam g i p n prog) h = (lookup prog h).map (fun fn : PFn =>
+      ({ fn with params := if fn.name = g then fn.params.eraseIdx i else fn.params,
+                 body := dropArgs g i (if fn.name = g then substVar p n fn.body else fn.body) } : PFn)) :=
+    lookup_map prog (fun fn : PFn =>
+      ({ fn with params := if fn.name = g then fn.params.eraseIdx i else fn.params,
+                 body := dropArgs g i (if fn.name = g then substVar p n fn.body else fn.body) } : PFn))
+      (fun _ => rfl) h
+  rw [hlk]
+  cases hl : lookup prog h with
+  | none => rfl
+  | some fn =>
+    have hm := lookup_mem hl
+    simp only [Option.map_some]
+    by_cases hhg : h = g
+    · subst hhg
+      have hfn : fn = gfn := by rw [hl] at hg; exact Option.some.inj hg
+      subst hfn
+      simp only [hm.2, if_true]
+      exact hsim.1 fn.body _ _ [] (CpeSem.bindParams_erase p fn.params vals i hp hnd)
+        (CpeSem.bindParams_get p fn.params vals i n hp hnd (hv rfl))
+        (by have := hall fn hm.1; simpa [hideOf, hm.2] using this)
+    · have hne : fn.name ≠ g := fun hq => hhg (hm.2.symm.trans hq)
+      simp only [hne, hhg, if_false]
+      exact hsim.2 fn.body _ [] (by have := hall fn hm.1; simpa [hideOf, hne] using this)
+
+
+/-- `h(k, a, b) = if k <= 0 { 0 } else { let r = g(k - 1, b, a, 7); print(k, a); r + 1 }` and
+`g(k, a, b, c) = if k <= 0 { c } else { let r = h(k - 1, a, b); r + c }`, entered as `h(3, 1, 2)`:
+`c` of `g` is the constant 7. -/
+def hgProg : Prog :=
+  [ { name := 0, params := [], body := .call 20 1 [.lit 3, .lit 1, .lit 2] (.ret (.var 20)) },
+    { name := 1, params := [0, 1, 2],
+      body := .bin 10 .le (.var 0) (.lit 0) (.ite (.var 10) (.ret (.lit 0))
+        (.bin 11 .sub (.var 0) (.lit 1) (.call 12 2 [.var 11, .var 2, .var 1, .lit 7]
+          (.print [.var 0, .var 1] (.bin 13 .add (.var 12) (.lit 1) (.ret (.var 13))))))) },
+    { name := 2, params := [0, 1, 2, 3],
+      body := .bin 10 .le (.var 0) (.lit 0) (.ite (.var 10) (.ret (.var 3))
+        (.bin 11 .sub (.var 0) (.lit 1) (.call 12 1 [.var 11, .var 1, .var 2]
+          (.bin 13 .add (.var 12) (.var 3) (.ret (.var 13)))))) } ]
+example : paramState (hgProg.map CpeProg.fnOf) (CpeProg.fnOf (hgProg[2]!)) 3 3 = .c32 7 := by decide
+example : (hgProg.map (·.name)).Nodup := by decide
+example : hgProg.all (fun fn => callsArityG 2 4 fn.body) = true := by decide
 
 end SamVerif.C01
